@@ -510,6 +510,166 @@ theorem C10_statements_lossless (t : FText) (nodes : List Node) (wp : WellPlaced
   · simp [statements, hps, bind, Except.bind, pure, Except.pure]
   · rw [normalize_lossless, hcat]
 
+/-! ### Statement pieces pass through `.statements` untouched -/
+
+/-- every node starts on a real character of the text that is not a newline
+    (a statement cannot begin with a line break) -/
+def StartsOnChar (t : FText) (nodes : List Node) : Prop :=
+  ∀ nd ∈ nodes, ∃ c, t.joined[t.off nd.start]? = some c ∧ c ≠ '\n'
+
+theorem nodePieces_node_head (t : FText) (i : Nat) (nd : Node) (nxt : Pos)
+    (hne : t.lines ≠ []) (hcol : 1 ≤ t.start.col) (vs : Valid t nd.start) (vn : Valid t nxt)
+    (hlt : nd.start.lt nxt = true) (hle : nxt.le t.endpos = true)
+    (c : Char) (hc : t.joined[t.off nd.start]? = some c) (hnl : c ≠ '\n') :
+    ∃ ps, nodePieces t i nd nxt = .ok ps ∧
+      ∀ p ∈ ps, p.node = some i → p.text.lines ≠ [] ∧ ∀ l' ls, p.text.lines ≠ [] :: l' :: ls := by
+  unfold nodePieces
+  obtain ⟨e, he, hok⟩ := nodeEnd_spec t nd.start nxt nd.endLine hne hcol vs vn hlt hle
+  simp only [he, bind, Except.bind]
+  have hse : nd.start.le e = true := by
+    have := hok.lt; unfold Pos.lt at this; unfold Pos.le
+    simp at this ⊢; omega
+  obtain ⟨a, ha, haj, _⟩ := slice_joined hne vs hok.valid hse
+  rw [ha]
+  simp only []
+  have hhead : a.joined.head? = some c := by
+    rw [haj, extract_head _ _ _ (off_strict vs hok.valid hok.lt) (off_le_length hok.valid)]
+    exact hc
+  have key : a.lines ≠ [] ∧ ∀ l' ls, a.lines ≠ [] :: l' :: ls := by
+    constructor
+    · intro h
+      unfold FText.joined at hhead; rw [h] at hhead; simp [joinNl] at hhead
+    · intro l' ls h
+      unfold FText.joined at hhead; rw [h] at hhead
+      simp [joinNl] at hhead
+      exact hnl hhead.symm
+  by_cases heq : e = nxt
+  · rw [if_neg (by simpa using heq)]
+    exact ⟨_, rfl, by intro p hp _; simp at hp; subst hp; exact key⟩
+  · rw [if_pos (by simpa using heq)]
+    obtain ⟨b, hb, _, _⟩ := slice_joined hne hok.valid vn hok.le
+    rw [hb]
+    refine ⟨_, rfl, ?_⟩
+    intro p hp hn
+    simp at hp
+    rcases hp with rfl | rfl
+    · exact key
+    · simp at hn
+
+theorem splitNodes_node_head (t : FText) (nodes : List Node) (i : Nat) (wp : WellPlaced t nodes)
+    (hs : StartsOnChar t nodes) :
+    ∃ ps, splitNodes t i nodes = .ok ps ∧
+      ∀ p ∈ ps, p.node ≠ none → p.text.lines ≠ [] ∧ ∀ l' ls, p.text.lines ≠ [] :: l' :: ls := by
+  induction nodes generalizing i with
+  | nil => exact ⟨[], rfl, by simp⟩
+  | cons nd rest ih =>
+    have hne := wp.lines_ne
+    have vend := endpos_valid t hne
+    have vs := wp.valid nd (by simp)
+    obtain ⟨c, hc, hnl⟩ := hs nd (by simp)
+    cases rest with
+    | nil =>
+      unfold splitNodes
+      have hle : t.endpos.le t.endpos = true := by unfold Pos.le; simp
+      obtain ⟨ps, hps, hp⟩ := nodePieces_node_head t i nd t.endpos hne wp.col_pos vs vend
+        (wp.before_end nd (by simp)) hle c hc hnl
+      obtain ⟨ps', hps', _, hfm, _⟩ := nodePieces_spec t i nd t.endpos hne wp.col_pos vs vend
+        (wp.before_end nd (by simp)) hle
+      rw [hps] at hps'; cases hps'
+      refine ⟨ps, hps, ?_⟩
+      intro p hpm hn
+      cases hk : p.node with
+      | none => exact absurd hk hn
+      | some k =>
+        have hmem : k ∈ ps.filterMap (·.node) := List.mem_filterMap.mpr ⟨p, hpm, hk⟩
+        rw [hfm] at hmem; simp at hmem; subst hmem
+        exact hp p hpm hk
+    | cons n rest' =>
+      unfold splitNodes
+      have vn := wp.valid n (by simp)
+      have hlt : nd.start.lt n.start = true := by
+        have := wp.sorted; simp [List.pairwise_cons] at this; exact this.1.1
+      have hnle : n.start.le t.endpos = true := by
+        have := wp.before_end n (by simp); unfold Pos.lt at this; unfold Pos.le
+        simp at this ⊢; omega
+      obtain ⟨ps, hps, hp⟩ := nodePieces_node_head t i nd n.start hne wp.col_pos vs vn hlt hnle c hc hnl
+      obtain ⟨ps', hps', _, hfm, _⟩ := nodePieces_spec t i nd n.start hne wp.col_pos vs vn hlt hnle
+      rw [hps] at hps'; cases hps'
+      have wp' : WellPlaced t (n :: rest') :=
+        ⟨hne, wp.col_pos, fun x hx => wp.valid x (by simp [hx]),
+          (List.pairwise_cons.mp wp.sorted).2, fun x hx => wp.before_end x (by simp [hx])⟩
+      obtain ⟨qs, hqs, hq⟩ := ih (i + 1) wp' (fun x hx => hs x (by simp [hx]))
+      simp only [hps, hqs, bind, Except.bind, pure, Except.pure]
+      refine ⟨ps ++ qs, rfl, ?_⟩
+      intro p hpm hn
+      rcases List.mem_append.mp hpm with h | h
+      · cases hk : p.node with
+        | none => exact absurd hk hn
+        | some k =>
+          have hmem : k ∈ ps.filterMap (·.node) := List.mem_filterMap.mpr ⟨p, h, hk⟩
+          rw [hfm] at hmem; simp at hmem; subst hmem
+          exact hp p h hk
+      · exact hq p h hn
+
+/-- **C10_statements_keep_nodes** — in `PythonBlock(text).statements` every statement
+    piece of the splitter survives the leading-newline normalisation unchanged
+    (same text, same start position, same node). -/
+theorem C10_statements_keep_nodes (t : FText) (nodes : List Node) (wp : WellPlaced t nodes)
+    (hs : StartsOnChar t nodes) :
+    ∃ ps, splitCodeLines t nodes = .ok ps ∧ statements t nodes = .ok (normalize ps) ∧
+      ∀ p ∈ ps, p.node ≠ none → peel p.text.start p.node p.text.lines = [p] ∧ p ∈ normalize ps := by
+  have fin : ∀ ps qs : List Piece, (∀ p ∈ ps, p.node ≠ none → p ∈ qs) →
+      (∀ p ∈ qs, p.node ≠ none → p.text.lines ≠ [] ∧ ∀ l' ls, p.text.lines ≠ [] :: l' :: ls) →
+      ∀ p ∈ ps, p.node ≠ none → peel p.text.start p.node p.text.lines = [p] ∧ p ∈ normalize ps := by
+    intro ps qs hmem hq p hp hn
+    obtain ⟨h1, h2⟩ := hq p (hmem p hp hn) hn
+    have hpeel := normalize_node_untouched p h2 h1
+    refine ⟨hpeel, ?_⟩
+    unfold normalize
+    rw [List.mem_flatMap]
+    exact ⟨p, hp, by rw [hpeel]; simp⟩
+  have stm : ∀ ps, splitCodeLines t nodes = .ok ps → statements t nodes = .ok (normalize ps) := by
+    intro ps h; simp [statements, h, bind, Except.bind, pure, Except.pure]
+  cases nodes with
+  | nil =>
+    refine ⟨[⟨none, t⟩], rfl, stm _ rfl, ?_⟩
+    intro p hp hn; simp at hp; subst hp; simp at hn
+  | cons first rest =>
+    have hne := wp.lines_ne
+    have vf := wp.valid first (by simp)
+    have hsf : t.start.le first.start = true := by
+      have h1 := vf.hl; have h2 := vf.hc
+      unfold Pos.le; unfold FText.colOff at h2
+      simp
+      by_cases h : t.start.line < first.start.line
+      · left; exact h
+      · right
+        have : first.start.line - t.start.line = 0 := by omega
+        rw [this] at h2; simp at h2
+        exact ⟨by omega, h2⟩
+    have hlast : ((first :: rest).getLast?.getD first).start.lt t.endpos = true := by
+      apply wp.before_end
+      rw [List.getLast?_eq_getLast (by simp)]
+      simp
+    obtain ⟨qs, hqs, hq⟩ := splitNodes_node_head t (first :: rest) 0 wp hs
+    by_cases hst : t.start = first.start
+    · have hsplit : splitCodeLines t (first :: rest) = .ok qs := by
+        unfold splitCodeLines
+        simp only [hsf, hlast, not_true_eq_false, if_false, bind, Except.bind, pure, Except.pure, hqs]
+        simp [hst]
+      exact ⟨qs, hsplit, stm _ hsplit, fin qs qs (fun p hp _ => hp) hq⟩
+    · obtain ⟨l, hl, _, _⟩ := slice_joined hne (start_valid t hne) vf hsf
+      have hsplit : splitCodeLines t (first :: rest) = .ok (⟨none, l⟩ :: qs) := by
+        unfold splitCodeLines
+        simp only [hsf, hlast, not_true_eq_false, if_false, bind, Except.bind, pure, Except.pure, hqs]
+        simp [hst, hl]
+      refine ⟨_, hsplit, stm _ hsplit, fin _ qs ?_ hq⟩
+      intro p hp hn
+      simp at hp
+      rcases hp with rfl | hp
+      · simp at hn
+      · exact hp
+
 /-! ### Non-vacuity: a concrete text meets the hypotheses and is split as expected -/
 
 def exText : FText := FText.ofStr "# c\nx = '''a\n# b'''  # t\n\n# d\ny = 2".toList ⟨3, 5⟩
